@@ -76,11 +76,45 @@ def Step.label : Step → String
   | .ts => "ts"
   | .rn _ => "rn"
 
+/-- the in-memory updates of the engine, one constructor per assignment in the code -/
+inductive MemUpd where
+  | bumpTxid                              -- `next_txid.fetch_add(1)`
+  | setPm (m : Meta)                      -- `Pager.meta` := m
+  | setIdStart (p : Nat)                  -- `IdMap.i2e_start`
+  | incIdLen                              -- `IdMap.i2e_len += 1`
+  | pushExt (x : Nat)                     -- `e2i.insert`, `i2l.push`, `i2e.push`
+  | pushRun (r : Run)                     -- `publish_run`
+  | compacted (ckpt proot : Nat) (ptop : Bool) (key : Nat) (edges : List Nat) (epoch : Nat)
+  | walOpen (b : Bool)                    -- `Wal.file` taken / restored
+  | tailChecked
+  | catalog (root : Nat) (entries : List Nat)
+  | loaded (m : Mem)                      -- `GraphEngine::open`: the state assembled from the files
+  | setRuns (rs : List Run)
+deriving Repr, Inhabited
+
+def applyUpd (m : Mem) : MemUpd → Mem
+  | .bumpTxid => { m with nextTxid := m.nextTxid + 1 }
+  | .setPm pm => { m with pm := pm }
+  | .setIdStart p => { m with idStart := p }
+  | .incIdLen => { m with idLen := m.idLen + 1 }
+  | .pushExt x => { m with exts := m.exts ++ [x] }
+  | .pushRun r => { m with runs := m.runs ++ [r] }
+  | .compacted ck pr pt key es ep =>
+    { m with ckpt := ck, proot := pr, ptop := pt, runs := [], segs := (key, es) :: m.segs, epoch := ep }
+  | .walOpen b => { m with walOpen := b }
+  | .tailChecked => { m with tailChecked := true }
+  | .catalog r es => { m with catRootM := r, catEntries := es }
+  | .loaded m' => m'
+  | .setRuns rs => { m with runs := rs }
+
 inductive Action where
   | io (s : Step) (onFail : List Step)   -- `onFail`: what the error path of this call site performs
-  | mem (f : Mem → Mem)
+  | mem (u : MemUpd)
   | fail (e : Err)                       -- the operation returns this error here
-deriving Inhabited
+deriving Repr, Inhabited
+
+abbrev ioA (s : Step) : Action := .io s []
+abbrev memA (u : MemUpd) : Action := .mem u
 
 /-! ## file-system state -/
 
@@ -106,320 +140,355 @@ def FS.step (fs : FS) : Step → FS
   | .ts => fs
   | .rn new => { fs with ren := some (fs.wf.take fs.wdur), wf := new, wdur := new.length }
 
+def FS.steps (fs : FS) (ss : List Step) : FS := ss.foldl FS.step fs
+
 /-- what a crash leaves.  `proc`: process death, everything written persists.
-    `power sel wk loseRename`: the durable images, plus the selected unsynced pager operations,
-    plus the first `wk` unsynced log fragments; an unsynced rename may be lost. -/
+    `power sel wk loseRename`: the durable images, plus the selected unsynced pager operations
+    (lost / persisted / torn, in issue order), plus the first `wk` unsynced log fragments; an
+    unsynced rename may be lost. -/
 inductive CrashMode where
   | proc
   | power (sel : List Sel) (wk : Nat) (loseRename : Bool)
 deriving Repr, Inhabited
 
-def zipSel (es : List PEff) (sel : List Sel) : List (PEff × Sel) :=
-  match es, sel with
+def zipSel : List PEff → List Sel → List (PEff × Sel)
   | [], _ => []
   | e :: es, [] => (e, .drop) :: zipSel es []
   | e :: es, s :: ss => (e, s) :: zipSel es ss
 
-def FS.crash (fs : FS) : CrashMode → FS
-  | .proc => { pd := fs.pv, pj := [], wf := fs.wf, wdur := fs.wf.length, ren := none }
-  | .power sel wk lose =>
-    let p := applySel (zipSel fs.pj sel) fs.pd
-    let w := match fs.ren, lose with
-      | some old, true => old
-      | _, _ => fs.wf.take (fs.wdur + wk)
-    { pd := p, pj := [], wf := w, wdur := w.length, ren := none }
+/-- the page file and the log after the crash -/
+def FS.crashP (fs : FS) : CrashMode → PImg
+  | .proc => fs.pv
+  | .power sel _ _ => applySel (zipSel fs.pj sel) fs.pd
 
-/-! ## program builder: a scratch copy of memory and of the volatile page file is threaded
-    through so that later steps see earlier ones -/
+def FS.crashW (fs : FS) : CrashMode → List Frag
+  | .proc => fs.wf
+  | .power _ wk lose =>
+    match fs.ren, lose with
+    | some old, true => old
+    | _, _ => fs.wf.take (fs.wdur + wk)
 
-structure B where
-  mem : Mem
-  vol : PImg
-  wlen : Nat
-  wvalid : Nat := 0       -- length of the decodable prefix of the log (read by the tail check)
-  acts : List Action      -- reversed
-  err : Option Err := none
+def FS.crash (fs : FS) (m : CrashMode) : FS :=
+  { pd := fs.crashP m, pj := [], wf := fs.crashW m, wdur := (fs.crashW m).length, ren := none }
 
-namespace B
+/-! ## building blocks (each mirrors one function of the code; the small scratch records carry
+    what later steps of the same operation depend on) -/
 
-def io (b : B) (s : Step) (onFail : List Step := []) : B :=
-  if b.err.isSome then b else
-  let vol := match s with | .pg e _ => applyEff e b.vol | _ => b.vol
-  let wlen := match s with
-    | .ww _ => b.wlen + 1
-    | .wt n => min b.wlen n
-    | .rn new => new.length
-    | _ => b.wlen
-  { b with vol := vol, wlen := wlen, acts := .io s onFail :: b.acts }
-
-def setMem (b : B) (f : Mem → Mem) : B :=
-  if b.err.isSome then b else { b with mem := f b.mem, acts := .mem f :: b.acts }
-
-def fail (b : B) (e : Err) : B :=
-  if b.err.isSome then b else { b with err := some e, acts := .fail e :: b.acts }
+/-- pager scratch: `Pager.meta` and the file length in pages -/
+structure PS where
+  pm : Meta
+  len : Nat
+deriving Repr, Inhabited
 
 /-- `Pager::flush_meta_and_bitmap` -/
-def flush (b : B) : B :=
-  ((b.io (.pg (.hdr b.mem.pm) 0)).io (.pg .bitmap 1)).io .ps
+def flushA (pm : Meta) : List Action :=
+  [ioA (.pg (.hdr pm) 0), ioA (.pg .bitmap 1), ioA .ps]
 
-/-- `Pager::ensure_allocated(pid)` for a data page (the in-memory meta already covers it) -/
-def ensure (b : B) (pid : Nat) : B :=
-  let b := if b.mem.pm.nextPage ≤ pid then b.setMem (fun m => { m with pm := { m.pm with nextPage := pid + 1 } }) else b
-  let b := if b.vol.len < pid + 1 then b.io (.pg (.setLen (pid + 1)) (pid + 1)) else b
-  b.flush
+/-- `Pager::ensure_allocated(pid)` for a data page -/
+def ensureA (ps : PS) (pid : Nat) : List Action × PS :=
+  let grow := ps.pm.nextPage ≤ pid
+  let pm := if grow then { ps.pm with nextPage := pid + 1 } else ps.pm
+  let a1 := if grow then [memA (.setPm pm)] else []
+  let ext := ps.len < pid + 1
+  let a2 := if ext then [ioA (.pg (.setLen (pid + 1)) (pid + 1))] else []
+  (a1 ++ a2 ++ flushA pm, { pm := pm, len := if ext then pid + 1 else ps.len })
 
 /-- `Pager::allocate_page` (no page is ever freed on these paths: the candidate is `next_page_id`) -/
-def alloc (b : B) : B × Nat :=
-  let pid := b.mem.pm.nextPage
-  let b := b.setMem (fun m => { m with pm := { m.pm with nextPage := pid + 1 } })
-  (b.ensure pid, pid)
+def allocA (ps : PS) : List Action × PS × Nat :=
+  let pid := ps.pm.nextPage
+  let pm := { ps.pm with nextPage := pid + 1 }
+  let (a, ps') := ensureA { ps with pm := pm } pid
+  (memA (.setPm pm) :: a, ps', pid)
 
-/-- `Wal::append`: three writes; on a failed write the frame start is restored (`walRollback`) -/
-def append (cfg : Cfg) (b : B) (r : Rec) : B :=
-  if !b.mem.walOpen then b.fail .walClosed else
-  let b :=
-    if cfg.tailTolerant && !b.mem.tailChecked then
-      let b := if b.wvalid < b.wlen then b.io (.wt b.wvalid) else b
-      b.setMem (fun m => { m with tailChecked := true })
-    else b
-  let start := b.wlen
-  let onFail := if cfg.walRollback then [Step.wt start] else []
-  ((b.io (.ww (.len r)) onFail).io (.ww (.crc r)) onFail).io (.ww (.body r)) onFail
+/-- log scratch: handle state, file length and decodable length in fragments -/
+structure WS where
+  isOpen : Bool
+  checked : Bool
+  len : Nat
+  valid : Nat
+deriving Repr, Inhabited
 
-def appends (cfg : Cfg) (b : B) (rs : List Rec) : B := rs.foldl (append cfg) b
+/-- `Wal::append`: (C17's repair: the first append through a handle cuts an undecodable tail
+    off) then three writes; on a failed write the frame start is restored (`walRollback`) -/
+def appendA (cfg : Cfg) (ws : WS) (r : Rec) : List Action × WS :=
+  if !ws.isOpen then ([.fail .walClosed], ws) else
+  let cut := cfg.tailTolerant && !ws.checked
+  let a0 := if cut then (if ws.valid < ws.len then [ioA (.wt ws.valid)] else []) ++ [memA .tailChecked] else []
+  let len0 := if cut then min ws.len ws.valid else ws.len
+  let onFail := if cfg.walRollback then [Step.wt len0] else []
+  (a0 ++ [.io (.ww (.len r)) onFail, .io (.ww (.crc r)) onFail, .io (.ww (.body r)) onFail],
+   { ws with checked := ws.checked || cut, len := len0 + 3, valid := if cut then len0 + 3 else ws.valid })
 
-/-- `IdMap::apply_create_node_multi_label` -/
-def applyCreateNode (cfg : Cfg) (b : B) (ext iid : Nat) : B :=
-  if b.err.isSome then b else
-  if iid ≠ b.mem.idLen then b.fail .nonDense else
-  if ext ≠ 0 ∧ b.mem.exts.contains ext then b.fail .dupExt else
-  let b :=
-    if b.mem.idStart = 0 then
-      let (b, p) := b.alloc
-      let b := b.setMem (fun m => { m with pm := { m.pm with i2eStart := p } })
-      let b := b.flush
-      b.setMem (fun m => { m with idStart := p })
-    else b
-  let page := b.mem.idStart          -- + iid / 512; histories stay below 512 nodes
-  let b := b.ensure page
-  let b := b.io (.pg (.slot iid ext) page)
-  let b := if cfg.syncSlot then b.io .ps else b
-  let b := b.setMem (fun m => { m with idLen := m.idLen + 1 })
-  let b := b.setMem (fun m => { m with pm := { m.pm with i2eLen := m.idLen } })
-  let b := b.flush
-  let b := b.setMem (fun m => { m with pm := { m.pm with nextInt := m.idLen } })
-  let b := b.flush
-  b.setMem (fun m => { m with exts := m.exts ++ [ext] })
+def appendsA (cfg : Cfg) : WS → List Rec → List Action × WS
+  | ws, [] => ([], ws)
+  | ws, r :: rs =>
+    let (a, ws1) := appendA cfg ws r
+    let (as, ws2) := appendsA cfg ws1 rs
+    (a ++ as, ws2)
 
-end B
+/-- node-table scratch: `IdMap.i2e_start`, `IdMap.i2e_len` -/
+structure IdSt where
+  start : Nat
+  len : Nat
+deriving Repr, Inhabited
+
+/-- `IdMap::apply_create_node_multi_label` for the next internal id (`iid = i2e_len`; the density
+    and duplicate checks are decided by the callers) -/
+def nodeA (cfg : Cfg) (ps : PS) (id : IdSt) (ext : Nat) : List Action × PS × IdSt :=
+  let (a0, ps, start) :=
+    if id.start = 0 then
+      let (a, ps, p) := allocA ps
+      let pm := { ps.pm with i2eStart := p }
+      (a ++ [memA (.setPm pm)] ++ flushA pm ++ [memA (.setIdStart p)], { ps with pm := pm }, p)
+    else ([], ps, id.start)
+  let (a1, ps) := ensureA ps start          -- page = start + iid / 512; histories stay below 512 nodes
+  let a2 := [ioA (.pg (.slot id.len ext) start)] ++ (if cfg.syncSlot then [ioA .ps] else [])
+  let pm1 := { ps.pm with i2eLen := id.len + 1 }
+  let pm2 := { pm1 with nextInt := id.len + 1 }
+  (a0 ++ a1 ++ a2 ++ [memA .incIdLen, memA (.setPm pm1)] ++ flushA pm1 ++ [memA (.setPm pm2)] ++ flushA pm2
+      ++ [memA (.pushExt ext)],
+   { ps with pm := pm2 }, { start := start, len := id.len + 1 })
+
+def nodesA (cfg : Cfg) : PS → IdSt → List Nat → List Action × PS × IdSt
+  | ps, id, [] => ([], ps, id)
+  | ps, id, x :: xs =>
+    let (a, ps1, id1) := nodeA cfg ps id x
+    let (as, ps2, id2) := nodesA cfg ps1 id1 xs
+    (a ++ as, ps2, id2)
 
 /-! ## operations -/
 
+def nodeRecs : Nat → List Nat → List Rec
+  | _, [] => []
+  | iid, x :: xs => .node x iid :: nodeRecs (iid + 1) xs
+
 def txRecs (txid base : Nat) (tx : Tx) : List Rec :=
-  [.begin txid] ++ (tx.nodes.zipIdx.map (fun (x, j) => Rec.node x (base + j)))
-    ++ tx.edges.map .edge ++ tx.props.map .prop ++ [.commit txid]
+  [.begin txid] ++ nodeRecs base tx.nodes ++ tx.edges.map .edge ++ tx.props.map .prop ++ [.commit txid]
+
+def Mem.ps (m : Mem) (vol : PImg) : PS := { pm := m.pm, len := vol.len }
+def Mem.ws (m : Mem) (w : List Frag) : WS :=
+  { isOpen := m.walOpen, checked := m.tailChecked, len := w.length, valid := validLen w }
 
 /-- `begin_write` + staging + `WriteTxn::commit` -/
-def commitProg (cfg : Cfg) (mem : Mem) (vol : PImg) (w : List Frag) (tx : Tx) : B :=
-  let wlen := w.length
-  let b : B := { mem := mem, vol := vol, wlen := wlen, wvalid := validLen w, acts := [] }
-  let txid := mem.nextTxid
-  let b := b.setMem (fun m => { m with nextTxid := m.nextTxid + 1 })
-  let base := mem.idLen
-  let txStart := wlen
-  let recs := txRecs txid base tx
-  let b := B.appends cfg b recs
-  let b := if !b.mem.walOpen then b else
-    b.io .ws (if cfg.walRollback then [Step.wt txStart] else [])
-  let b := (tx.nodes.zipIdx).foldl (fun b (x, j) => B.applyCreateNode cfg b x (base + j)) b
-  let b := if tx.edges.isEmpty && tx.props.isEmpty then b else
-    b.setMem (fun m => { m with runs := m.runs ++ [{ txid := txid, edges := tx.edges, props := tx.props }] })
-  b.setMem (fun m => { m with nextTxid := m.nextTxid + 1 })
+def commitA (cfg : Cfg) (m : Mem) (vol : PImg) (w : List Frag) (tx : Tx) : List Action :=
+  let txid := m.nextTxid
+  let ws0 := m.ws w
+  let (aw, ws1) := appendsA cfg ws0 (txRecs txid m.idLen tx)
+  let txStart := if cfg.tailTolerant && !ws0.checked then min ws0.len ws0.valid else ws0.len
+  let sync : List Action := if ws1.isOpen then [.io .ws (if cfg.walRollback then [Step.wt txStart] else [])] else []
+  let (an, _, _) := nodesA cfg (m.ps vol) { start := m.idStart, len := m.idLen } tx.nodes
+  let pub := if tx.edges.isEmpty && tx.props.isEmpty then []
+    else [memA (.pushRun { txid := txid, edges := tx.edges, props := tx.props })]
+  [memA .bumpTxid] ++ aw ++ sync ++ an ++ pub ++ [memA .bumpTxid]
 
 def insertSorted (q : Nat) : List (Option Nat) → List (Option Nat)
   | [] => [some q]
   | e :: es => if optLt e q then e :: insertSorted q es else some q :: e :: es
 
-/-- one `BlobStore::write` + `BTree::insert` of compaction's property sinking.  Keys ascend with
-    time, so the target is always the last leaf; the internal root has room for ~280 children and
-    is never split at the sizes considered. -/
-def sinkOne (cfg : Cfg) (key : Nat) (b : B) (q : Nat) : B :=
-  if b.err.isSome then b else
-  let (b, bp) := b.alloc
-  let b := b.io (.pg (.blob key q) bp)
-  match b.vol.trees.find? (fun t => t.key == key) with
-  | none => b.fail .idxBad
-  | some t =>
-    let li := t.leaves.length - 1
-    let leaf := t.leaves.getD li ⟨[], false, key⟩
-    let es := insertSorted q leaf.entries
-    if leaf.entries.length < cfg.leafCap then
-      b.io (.pg (.leaf key li es leaf.sib leaf.pid) leaf.pid)
-    else
-      -- leaf split (`BTree::insert` Err arm): left half rewritten in place, right half on a new
-      -- page, then the parent (a new internal root the first time)
-      let mid := es.length / 2
-      let left := es.take mid
-      let right := es.drop mid
-      let sep := (right.headD none).getD 0
-      let (b, rp) := b.alloc
-      let b := b.io (.pg (.leaf key li left true leaf.pid) leaf.pid)
-      let b := b.io (.pg (.leaf key (li + 1) right leaf.sib rp) rp)
-      match t.inode with
-      | none =>
-        let (b, np) := b.alloc
-        b.io (.pg (.inode key [sep] np) np)
-      | some seps => b.io (.pg (.inode key (seps ++ [sep]) t.inodePid) t.inodePid)
+/-- one `BlobStore::write` + `BTree::insert` of compaction's property sinking, on the tree as it
+    is in the volatile image (`t`).  Keys ascend with time, so the target is always the last leaf;
+    the internal root has room for ~280 children and is never split at the sizes considered. -/
+def sinkOneA (cfg : Cfg) (ps : PS) (t : TreeImg) (q : Nat) : List Action × PS × TreeImg :=
+  let (a0, ps, bp) := allocA ps
+  let a1 := [ioA (.pg (.blob t.key q) bp)]
+  let t := { t with blobs := q :: t.blobs }
+  let li := t.leaves.length - 1
+  let leaf := t.leaves.getD li ⟨[], false, t.key⟩
+  let es := insertSorted q leaf.entries
+  if leaf.entries.length < cfg.leafCap then
+    (a0 ++ a1 ++ [ioA (.pg (.leaf t.key li es leaf.sib leaf.pid) leaf.pid)], ps,
+     { t with leaves := setLeaf t.leaves li ⟨es, leaf.sib, leaf.pid⟩ })
+  else
+    -- leaf split (`BTree::insert` Err arm): left half rewritten in place, right half on a new
+    -- page, then the parent (a new internal root the first time)
+    let mid := es.length / 2
+    let left := es.take mid
+    let right := es.drop mid
+    let sep := (right.headD none).getD 0
+    let (a2, ps, rp) := allocA ps
+    let a3 := [ioA (.pg (.leaf t.key li left true leaf.pid) leaf.pid),
+               ioA (.pg (.leaf t.key (li + 1) right leaf.sib rp) rp)]
+    let leaves := setLeaf (setLeaf t.leaves li ⟨left, true, leaf.pid⟩) (li + 1) ⟨right, leaf.sib, rp⟩
+    match t.inode with
+    | none =>
+      let (a4, ps, np) := allocA ps
+      (a0 ++ a1 ++ a2 ++ a3 ++ a4 ++ [ioA (.pg (.inode t.key [sep] np) np)], ps,
+       { t with leaves := leaves, inode := some [sep], inodePid := np })
+    | some seps =>
+      (a0 ++ a1 ++ a2 ++ a3 ++ [ioA (.pg (.inode t.key (seps ++ [sep]) t.inodePid) t.inodePid)], ps,
+       { t with leaves := leaves, inode := some (seps ++ [sep]) })
 
-def sortNat (xs : List Nat) : List Nat := xs.foldr (fun x acc => (acc.filter (· < x)) ++ [x] ++ acc.filter (fun y => ¬ y < x)) []
+def sinkA (cfg : Cfg) : PS → TreeImg → List Nat → List Action × PS × TreeImg
+  | ps, t, [] => ([], ps, t)
+  | ps, t, q :: qs =>
+    let (a, ps1, t1) := sinkOneA cfg ps t q
+    let (as, ps2, t2) := sinkA cfg ps1 t1 qs
+    (a ++ as, ps2, t2)
+
+def sortNat (xs : List Nat) : List Nat :=
+  xs.foldr (fun x acc => (acc.filter (· < x)) ++ [x] ++ acc.filter (fun y => ¬ y < x)) []
+
+/-- data pages of a persisted segment after the first one: edges, in_offsets, in_edges -/
+def segPartsA (key need : Nat) (edges : List Nat) : PS → List Nat → List Action × PS
+  | ps, [] => ([], ps)
+  | ps, j :: js =>
+    let (a, ps1, p) := allocA ps
+    let (as, ps2) := segPartsA key need edges ps1 js
+    (a ++ [ioA (.pg (.segPart key j need edges) p)] ++ as, ps2)
 
 /-- `GraphEngine::compact` -/
-def compactProg (cfg : Cfg) (mem : Mem) (vol : PImg) (w : List Frag) : B :=
-  let b : B := { mem := mem, vol := vol, wlen := w.length, wvalid := validLen w, acts := [] }
-  if mem.runs.isEmpty then b else
-  let edges := mem.runs.flatMap (·.edges)
-  let props := sortNat (mem.runs.flatMap (·.props))
+def compactA (cfg : Cfg) (m : Mem) (vol : PImg) (w : List Frag) : List Action :=
+  if m.runs.isEmpty then [] else
+  let edges := m.runs.flatMap (·.edges)
+  let props := sortNat (m.runs.flatMap (·.props))
   -- seg.persist: offsets page, then (if there are edges) edges, in_offsets, in_edges pages, meta page
   let nData := if edges.isEmpty then 1 else 4
   let need := nData + 1
-  let (b, k0) := b.alloc
-  let b := b.io (.pg (.segPart k0 0 need edges) k0)
-  let b := (List.range (nData - 1)).foldl (fun b j =>
-    let (b, p) := B.alloc b
-    b.io (.pg (.segPart k0 (j + 1) need edges) p)) b
-  let (b, mp) := b.alloc
-  let b := b.io (.pg (.segPart k0 nData need edges) mp)
-  let b := b.io .ps
-  let upTo := (mem.runs.map (·.txid)).foldl max 0
-  let epoch := mem.epoch + 1
+  let (a0, ps, k0) := allocA (m.ps vol)
+  let a1 := [ioA (.pg (.segPart k0 0 need edges) k0)]
+  let (a2, ps) := segPartsA k0 need edges ps ((List.range (nData - 1)).map (· + 1))
+  let (a3, ps, mp) := allocA ps
+  let a4 := [ioA (.pg (.segPart k0 nData need edges) mp), ioA .ps]
+  let upTo := (m.runs.map (·.txid)).foldl max 0
+  let epoch := m.epoch + 1
   -- property sinking into the live tree
-  let (b, root, top) :=
-    if props.isEmpty then (b, mem.proot, mem.ptop) else
-    let (b, key) :=
-      if mem.proot = 0 then
-        let (b, r) := b.alloc
-        (b.io (.pg (.treeNew r) r), r)
-      else (b, mem.proot)
-    let b := props.foldl (sinkOne cfg key) b
-    let top := match b.vol.trees.find? (fun t => t.key == key) with
-      | some t => t.inode.isSome
-      | none => false
-    (b, key, top)
+  let (a5, ps, root, top) :=
+    if props.isEmpty then ([], ps, m.proot, m.ptop) else
+    let (ac, ps, t) :=
+      if m.proot = 0 then
+        let (a, ps, r) := allocA ps
+        (a ++ [ioA (.pg (.treeNew r) r)], ps,
+         ({ key := r, leaves := [⟨[], false, r⟩], inode := none, blobs := [] } : TreeImg))
+      else ([], ps, (vol.trees.find? (fun t => t.key == m.proot)).getD
+              { key := m.proot, leaves := [⟨[], false, m.proot⟩], inode := none, blobs := [] })
+    let (as, ps, t) := sinkA cfg ps t props
+    (ac ++ as, ps, t.key, t.inode.isSome)
   -- statistics blob
-  let (b, sp) := b.alloc
-  let b := b.io (.pg .stats sp)
-  let sys := mem.nextTxid
-  let b := b.setMem (fun m => { m with nextTxid := m.nextTxid + 1 })
-  let segKeys := k0 :: mem.segs.map (·.1)
-  let b := B.appends cfg b [.begin sys, .manifest epoch segKeys root top, .checkpoint upTo epoch root top, .commit sys]
-  let b := if !b.mem.walOpen then b else b.io .ws
-  b.setMem (fun m => { m with ckpt := upTo, proot := root, ptop := top, runs := [], segs := (k0, edges) :: m.segs, epoch := epoch })
+  let (a6, _, sp) := allocA ps
+  let a7 := [ioA (.pg .stats sp)]
+  let sys := m.nextTxid
+  let segKeys := k0 :: m.segs.map (·.1)
+  let (a8, ws1) := appendsA cfg (m.ws w)
+    [.begin sys, .manifest epoch segKeys root top, .checkpoint upTo epoch root top, .commit sys]
+  let a9 : List Action := if ws1.isOpen then [ioA .ws] else []
+  a0 ++ a1 ++ a2 ++ a3 ++ a4 ++ a5 ++ a6 ++ a7 ++ [memA .bumpTxid] ++ a8 ++ a9
+    ++ [memA (.compacted upTo root top k0 edges epoch)]
 
-/-- `GraphEngine::checkpoint_on_close` (followed by dropping the handle) -/
-def closeProg (_cfg : Cfg) (mem : Mem) (vol : PImg) (w : List Frag) : B :=
-  let b : B := { mem := mem, vol := vol, wlen := w.length, wvalid := validLen w, acts := [] }
-  if !mem.runs.isEmpty then
-    let b := b.io .ps
-    if !b.mem.walOpen then b.fail .walClosed else b.io .ws
+/-- `GraphEngine::checkpoint_on_close` (the caller drops the handle afterwards) -/
+def closeA (_cfg : Cfg) (m : Mem) (_vol : PImg) (_w : List Frag) : List Action :=
+  if !m.runs.isEmpty then
+    [ioA .ps] ++ (if m.walOpen then [ioA .ws] else [.fail .walClosed])
   else
-    let b := b.io .ps
-    let upTo := mem.nextTxid - 1
-    let sys := mem.nextTxid
-    let b := b.setMem (fun m => { m with nextTxid := m.nextTxid + 1 })
-    let recs : List Rec := [.begin sys, .manifest mem.epoch (mem.segs.map (·.1)) mem.proot mem.ptop,
-      .checkpoint upTo mem.epoch mem.proot mem.ptop, .commit sys]
+    let upTo := m.nextTxid - 1
+    let sys := m.nextTxid
+    let recs : List Rec := [.begin sys, .manifest m.epoch (m.segs.map (·.1)) m.proot m.ptop,
+      .checkpoint upTo m.epoch m.proot m.ptop, .commit sys]
     -- rewrite_as_snapshot: the handle is given up first; it comes back only after the rename
-    let b := b.setMem (fun m => { m with walOpen := false })
-    let b := b.io .tc
-    let b := recs.foldl (fun b _ => b.io .tw) b
-    let b := b.io .ts
-    let b := b.io (.rn (frames recs))
-    let b := { b with wvalid := b.wlen }
-    let b := b.setMem (fun m => { m with walOpen := true })
-    b.io .ws
+    [ioA .ps, memA .bumpTxid, memA (.walOpen false), ioA .tc] ++ recs.map (fun _ => ioA .tw)
+      ++ [ioA .ts, ioA (.rn (frames recs)), memA (.walOpen true), ioA .ws]
 
-/-- `replay_graph_transactions` for one committed transaction (performs node-table I/O) -/
-def replayTx (cfg : Cfg) (b : B) (tx : CTx) : B × Run :=
-  let step := fun (acc : B × Run) (op : Rec) =>
-    let (b, run) := acc
-    if b.err.isSome then acc else
-    match op with
-    | .node ext iid =>
-      match (if ext = 0 then none else b.mem.exts.idxOf? ext) with
-      | some existing => if existing ≠ iid then (b.fail .remapped, run) else (b, run)
-      | none => (B.applyCreateNode cfg b ext iid, run)
-    | .edge e => (b, { run with edges := run.edges ++ [e] })
-    | .prop q => (b, { run with props := run.props ++ [q] })
-    | _ => (b, run)
-  tx.ops.foldl step (b, { txid := tx.txid, edges := [], props := [] })
+/-! ### open -/
+
+/-- `replay_graph_transactions`: which logged nodes have to be applied to the node table (those
+    not yet in it), the runs, and the error that stops the replay, if any -/
+structure Plan where
+  apply : List Nat := []
+  runs : List Run := []
+  err : Option Err := none
+deriving Repr, Inhabited
+
+def planOps : List Rec → List Nat → Nat → Run → List Nat → Option Err × List Nat × Nat × Run × List Nat
+  | [], exts, len, run, acc => (none, exts, len, run, acc)
+  | .node ext iid :: rest, exts, len, run, acc =>
+    match (if ext = 0 then none else exts.idxOf? ext) with
+    | some existing =>
+      if existing ≠ iid then (some .remapped, exts, len, run, acc) else planOps rest exts len run acc
+    | none =>
+      if iid ≠ len then (some .nonDense, exts, len, run, acc)
+      else planOps rest (exts ++ [ext]) (len + 1) run (acc ++ [ext])
+  | .edge e :: rest, exts, len, run, acc => planOps rest exts len { run with edges := run.edges ++ [e] } acc
+  | .prop q :: rest, exts, len, run, acc => planOps rest exts len { run with props := run.props ++ [q] } acc
+  | _ :: rest, exts, len, run, acc => planOps rest exts len run acc
+
+def planTxs (ckpt : Nat) : List CTx → List Nat → Nat → Plan → Plan
+  | [], _, _, pl => pl
+  | tx :: rest, exts, len, pl =>
+    if tx.txid ≤ ckpt then planTxs ckpt rest exts len pl else
+    let (err, exts', len', run, acc) := planOps tx.ops exts len { txid := tx.txid, edges := [], props := [] } []
+    let pl := { pl with apply := pl.apply ++ acc }
+    match err with
+    | some e => { pl with err := some e }
+    | none =>
+      let pl := if run.edges.isEmpty && run.props.isEmpty then pl else { pl with runs := pl.runs ++ [run] }
+      planTxs ckpt rest exts' len' pl
+
+/-- creation of one of the two reserved HNSW indexes if the catalog does not have it yet -/
+def mkIndexA (cfg : Cfg) (ps : PS) (catRoot : Nat) (entries : List Nat) (i : Nat) :
+    List Action × PS × List Nat :=
+  if i < entries.length then ([], ps, entries) else
+  let id := if ps.pm.nextIdx = 0 then 1 else ps.pm.nextIdx
+  let pm := { ps.pm with nextIdx := id + 1 }
+  let (a1, ps, r) := allocA { ps with pm := pm }
+  let sync : List Action := if cfg.syncCreate then [ioA .ps] else []
+  let entries := entries ++ [r]
+  ([memA (.setPm pm)] ++ flushA pm ++ a1 ++ [ioA (.pg (.idxRoot r) r)] ++ sync
+     ++ [memA (.catalog catRoot entries), ioA (.pg (.cat entries) catRoot)] ++ sync,
+   ps, entries)
 
 /-- `GraphEngine::open` on the files as they are (`vol` = page file, `w` = log) -/
-def openProg (cfg : Cfg) (vol : PImg) (w : List Frag) : B :=
-  let b : B := { mem := {}, vol := vol, wlen := w.length, acts := [] }
+def openA (cfg : Cfg) (vol : PImg) (w : List Frag) : List Action :=
   -- Pager::open
   let fresh := vol.len = 0 || (cfg.freshZero && (vol.len < 2 || !vol.hdr.init))
-  let b :=
-    if fresh then
-      let b := b.setMem (fun m => { m with pm := { init := true } })
-      let b := b.io (.pg (.setLen 2) 2)
-      b.flush
-    else if !vol.hdr.init then b.fail .io
-    else b.setMem (fun m => { m with pm := vol.hdr })
+  if !fresh && !vol.hdr.init then [.fail .io] else
+  let pm0 : Meta := if fresh then { init := true } else vol.hdr
+  let a0 : List Action :=
+    if fresh then [memA (.setPm pm0), ioA (.pg (.setLen 2) 2)] ++ flushA pm0 else [memA (.setPm pm0)]
+  let ps : PS := { pm := pm0, len := if fresh then max vol.len 2 else vol.len }
   -- IdMap::load
-  let b := b.setMem (fun m =>
-    let st := m.pm.i2eStart
-    let n := if st = 0 then 0 else m.pm.i2eLen
-    { m with idStart := st, idLen := m.pm.i2eLen, exts := (List.range n).map (getSlot vol.i2e) })
-  -- IndexCatalog::open_or_create + the two reserved HNSW indexes
-  let b :=
-    if b.err.isSome then b else
-    if b.mem.pm.catRoot = 0 then
-      let (b, c) := b.alloc
-      let b := b.io (.pg (.cat []) c)
-      let b := if cfg.syncCreate then b.io .ps else b
-      let b := b.setMem (fun m => { m with pm := { m.pm with catRoot := c } })
-      let b := b.flush
-      b.setMem (fun m => { m with catRootM := c, catEntries := [] })
+  let st := pm0.i2eStart
+  let n := if st = 0 then 0 else pm0.i2eLen
+  let exts0 := (List.range n).map (getSlot vol.i2e)
+  let m0 : Mem := { pm := pm0, idStart := st, idLen := pm0.i2eLen, exts := exts0 }
+  -- IndexCatalog::open_or_create
+  let catStep : Except Err (List Action × PS × Nat × List Nat) :=
+    if pm0.catRoot = 0 then
+      let (a, ps, c) := allocA ps
+      let sync : List Action := if cfg.syncCreate then [ioA .ps] else []
+      let pm := { ps.pm with catRoot := c }
+      .ok (a ++ [ioA (.pg (.cat []) c)] ++ sync ++ [memA (.setPm pm)] ++ flushA pm ++ [memA (.catalog c [])],
+           { ps with pm := pm }, c, [])
     else
       match vol.cat with
-      | none => b.fail .catBad
-      | some es => b.setMem (fun m => { m with catRootM := m.pm.catRoot, catEntries := es })
-  let mkIndex := fun (b : B) (i : Nat) =>
-    if b.err.isSome then b else
-    if i < b.mem.catEntries.length then b else
-    let id := if b.mem.pm.nextIdx = 0 then 1 else b.mem.pm.nextIdx
-    let b := b.setMem (fun m => { m with pm := { m.pm with nextIdx := id + 1 } })
-    let b := b.flush
-    let (b, r) := b.alloc
-    let b := b.io (.pg (.idxRoot r) r)
-    let b := if cfg.syncCreate then b.io .ps else b
-    let b := b.setMem (fun m => { m with catEntries := m.catEntries ++ [r] })
-    let b := b.io (.pg (.cat b.mem.catEntries) b.mem.catRootM)
-    if cfg.syncCreate then b.io .ps else b
-  let b := mkIndex (mkIndex b 0) 1
-  -- HnswIndex::load reads both roots
-  let b := if b.err.isSome then b else
-    if b.mem.catEntries.all (fun r => b.vol.idx.contains r) then b else b.fail .idxBad
-  -- log replay
-  if b.err.isSome then b else
-  match committed (readAll w) with
-  | .error e => b.fail e
-  | .ok txs =>
-    let st := scan txs
-    -- CsrSegment::load for every manifest entry
-    let segs := st.segs.map (fun k => (k, b.vol.segs.find? (fun s => s.key == k && s.complete)))
-    if segs.any (fun s => s.2.isNone) then b.fail .segMissing else
-    let b := b.setMem (fun m => { m with
-      segs := segs.map (fun s => (s.1, (s.2.map (·.edges)).getD [])),
-      epoch := st.epoch, ckpt := st.ckpt, proot := st.proot, ptop := st.ptop,
-      nextTxid := max (st.maxTxid + 1) 1 })
-    let replay := fun (b : B) (tx : CTx) =>
-      if b.err.isSome then b else
-      if tx.txid ≤ st.ckpt then b else
-      let (b, run) := replayTx cfg b tx
-      if run.edges.isEmpty && run.props.isEmpty then b else
-      b.setMem (fun m => { m with runs := m.runs ++ [run] })
-    txs.foldl replay b
+      | none => .error .catBad
+      | some es => .ok ([memA (.catalog pm0.catRoot es)], ps, pm0.catRoot, es)
+  match catStep with
+  | .error e => a0 ++ [memA (.loaded m0), .fail e]
+  | .ok (a1, ps, catRoot, entries0) =>
+    let (a2, ps, entries) := mkIndexA cfg ps catRoot entries0 0
+    let (a3, ps, entries) := mkIndexA cfg ps catRoot entries 1
+    let boot := a0 ++ [memA (.loaded m0)] ++ a1 ++ a2 ++ a3
+    -- HnswIndex::load reads both roots (those created just now are there)
+    let created := entries.drop entries0.length
+    if !(entries.all (fun r => created.contains r || vol.idx.contains r)) then boot ++ [.fail .idxBad] else
+    -- log replay
+    match committed (readAll w) with
+    | .error e => boot ++ [.fail e]
+    | .ok txs =>
+      let sc := scan txs
+      -- CsrSegment::load for every manifest entry
+      let segs := sc.segs.map (fun k => (k, vol.segs.find? (fun s => s.key == k && s.complete)))
+      if segs.any (fun s => s.2.isNone) then boot ++ [.fail .segMissing] else
+      let m1 : Mem := { m0 with
+        pm := ps.pm, catRootM := catRoot, catEntries := entries,
+        segs := segs.map (fun s => (s.1, (s.2.map (·.edges)).getD [])),
+        epoch := sc.epoch, ckpt := sc.ckpt, proot := sc.proot, ptop := sc.ptop,
+        nextTxid := max (sc.maxTxid + 1) 1 }
+      let pl := planTxs sc.ckpt txs exts0 m0.idLen {}
+      let (an, _, _) := nodesA cfg ps { start := m0.idStart, len := m0.idLen } pl.apply
+      boot ++ [memA (.loaded m1)] ++ an ++
+        (match pl.err with
+         | some e => [.fail e]
+         | none => [memA (.setRuns pl.runs)])
 
 /-! ## execution -/
 
@@ -431,7 +500,7 @@ deriving Repr, Inhabited
 
 structure Outcome where
   fs : FS
-  mem : Option Mem          -- `none`: no handle (dead / error in open)
+  mem : Mem
   err : Option Err
   steps : List Step         -- performed (for the step log)
   fired : Bool
@@ -440,21 +509,27 @@ deriving Inhabited
 
 /-- run the actions; the k-th I/O step (0-based) is where the process dies / the error is injected -/
 def runActs : List Action → Stop → Nat → FS → Mem → List Step → Outcome
-  | [], _, _, fs, mem, log => { fs := fs, mem := some mem, err := none, steps := log.reverse, fired := false, dead := false }
-  | .mem f :: rest, st, n, fs, mem, log => runActs rest st n fs (f mem) log
-  | .fail e :: _, _, _, fs, mem, log => { fs := fs, mem := some mem, err := some e, steps := log.reverse, fired := false, dead := false }
+  | [], _, _, fs, mem, log => { fs := fs, mem := mem, err := none, steps := log.reverse, fired := false, dead := false }
+  | .mem u :: rest, st, n, fs, mem, log => runActs rest st n fs (applyUpd mem u) log
+  | .fail e :: _, _, _, fs, mem, log => { fs := fs, mem := mem, err := some e, steps := log.reverse, fired := false, dead := false }
   | .io s onFail :: rest, st, n, fs, mem, log =>
     match st with
     | .crashAt k =>
-      if n = k then { fs := fs, mem := none, err := none, steps := log.reverse, fired := true, dead := true }
+      if n = k then { fs := fs, mem := mem, err := none, steps := log.reverse, fired := true, dead := true }
       else runActs rest st (n + 1) (fs.step s) mem (s :: log)
     | .faultAt k =>
       if n = k then
-        let fs' := onFail.foldl FS.step fs
-        { fs := fs', mem := some mem, err := some .io, steps := (onFail.reverse ++ log).reverse, fired := true, dead := false }
+        { fs := fs.steps onFail, mem := mem, err := some .io, steps := (onFail.reverse ++ log).reverse, fired := true, dead := false }
       else runActs rest st (n + 1) (fs.step s) mem (s :: log)
     | .none => runActs rest st (n + 1) (fs.step s) mem (s :: log)
 
-def B.run (b : B) (st : Stop) (fs : FS) (mem0 : Mem) : Outcome := runActs b.acts.reverse st 0 fs mem0 []
+def run (acts : List Action) (st : Stop) (fs : FS) (mem : Mem) : Outcome := runActs acts st 0 fs mem []
+
+/-- the I/O steps of a program, in order -/
+def ioSteps : List Action → List Step
+  | [] => []
+  | .io s _ :: rest => s :: ioSteps rest
+  | .fail _ :: _ => []
+  | _ :: rest => ioSteps rest
 
 end Nervus.Crash
